@@ -891,8 +891,11 @@ def sub_windows(pts):
     return out
 
 
-def check_dedicated(ts, rts, acc, case, full, site_only=False):
+def check_dedicated(ts, rts, acc, case, full, site_only=False, ld_only=False):
     np = np_()
+    if ld_only:
+        check_ld(ts, rts, acc, case)
+        return
     samples = rts.samples
     ns = len(samples)
     N = rts.N
@@ -1243,6 +1246,8 @@ def _plan(tier):
         add("ded", dict(N=3, G=2), "rich", per=12)
         add("ded", dict(N=4, G=1), "rich", per=20)
         add("ded", dict(N=3, G=3, flags="allsamples"), "rich", per=12)
+        add("ded", dict(N=3, G=2), "two1", per=12, ld_only=True)
+        add("ded", dict(N=4, G=1), "two1", per=40, ld_only=True)
         add("dist", dict(N=4, G=1), per=None, nsh=2)
         add("dist", dict(N=5, G=1), per=None, nsh=6)
         add("dist", dict(N=5, G=2, flags=_flags_first3), per=None, nsh=12)
@@ -1277,6 +1282,9 @@ def _plan(tier):
         add("ded", dict(N=4, G=1), "mixed", per=4, full=True)
         add("ded", dict(N=4, G=2), "rich", per=40)
         add("ded", dict(N=3, G=3, times="weak", flags="allsamples"), "rich", per=40)
+        add("ded", dict(N=3, G=2, times="weak"), "two1", per=40, ld_only=True)
+        add("ded", dict(N=4, G=1, times="weak"), "two1", per=40, ld_only=True)
+        add("ded", dict(N=4, G=2, flags="allsamples"), "two1", per=20, ld_only=True)
         add("dist", dict(N=4, G=1, times="weak"), per=None, nsh=4)
         add("dist", dict(N=5, G=1), per=None, nsh=6)
         add("dist", dict(N=5, G=2, flags=_flags_first3), per=None, nsh=40)
@@ -1384,7 +1392,7 @@ def check_case(part, m, placement, opt, acc):
     elif part in ("sched", "sched5"):
         check_sched(ts, rts, acc, case, maxk=opt.get("maxk", 5))
     elif part == "ded":
-        check_dedicated(ts, rts, acc, case, full, bool(opt.get("site_only")))
+        check_dedicated(ts, rts, acc, case, full, bool(opt.get("site_only")), bool(opt.get("ld_only")))
     else:
         raise ValueError(part)
     acc.sample({"part": part, "member": m.desc(), "placement": placement_desc(placement)[:2]})
